@@ -56,10 +56,26 @@ def main() -> int:
                 return 1
             return 0
         selftest = None
-        if args.tier == "thorough" and hasattr(mod, "thorough_extra"):
-            selftest = mod.thorough_extra(ctx, col)
-        return report.finish(col, args.tier, t0, selftest=selftest,
+        if args.tier == "thorough" and not os.environ.get("VERIF_SELFTEST_CHILD") and not args.repo:
+            if hasattr(mod, "thorough_extra"):
+                mod.thorough_extra(ctx, col)
+            try:
+                vmod = importlib.import_module(f"sa.variants.{prop.lower()}")
+            except ModuleNotFoundError:
+                vmod = None
+            if vmod is not None:
+                from sa import selftest as st
+                selftest = st.run_corpus(prop, vmod.VARIANTS, repo_root=ctx.repo.root)
+                print(f"{prop}: checker self-validation {selftest['passed']}/{selftest['applicable']} "
+                      f"variants behaved as expected ({len(selftest['not_applicable'])} not applicable)")
+                for f in selftest["failed"]:
+                    print(f"  SELFTEST-MISMATCH {f['name']} expect={f['expect']} exit={f.get('exit')}")
+        code = report.finish(col, args.tier, t0, selftest=selftest,
                              write=not args.no_evidence)
+        if code == 0 and selftest and selftest["failed"] and os.environ.get("VERIF_SELFTEST_STRICT"):
+            print(f"ANALYSIS-ERROR property={prop} self-validation mismatch (strict mode)")
+            return 2
+        return code
     except AnalysisError as e:
         print(f"ANALYSIS-ERROR property={prop} {e}")
         return 2
